@@ -1,6 +1,6 @@
-// capacities [10, 255] of the C10/C11 harness
+// capacities [10, 255] (both objects) of the C10/C11 harness
 #include "c10_impl.hpp"
 namespace c10 {
-std::string run_10(const std::vector<std::string>& w) { return run<10>(w); }
-std::string run_255(const std::vector<std::string>& w) { return run<255>(w); }
+std::string run_10_10(const std::vector<std::string>& w) { return run<10, 10>(w); }
+std::string run_255_255(const std::vector<std::string>& w) { return run<255, 255>(w); }
 }
